@@ -298,6 +298,32 @@ theorem openLoop_zero (out : α → Bool) (l : List α) :
     List.Perm (openLoop out 0 l) (l.filter (fun a => !out a)) := by
   simpa using openLoop_perm out 0 l
 
+theorem take_eraseIdx_self {α} (l : List α) (i : Nat) (h : i < l.length) : (l.eraseIdx i).take i = l.take i := by
+  rw [List.eraseIdx_eq_take_drop_succ]
+  have hl : (l.take i).length = i := by simp; omega
+  rw [List.take_append_of_le_length (by omega)]
+  rw [List.take_take]; simp
+theorem drop_eraseIdx_self {α} (l : List α) (i : Nat) (h : i < l.length) : (l.eraseIdx i).drop i = l.drop (i+1) := by
+  rw [List.eraseIdx_eq_take_drop_succ]
+  have hl : (l.take i).length = i := by simp; omega
+  rw [List.drop_append_of_le_length (by omega)]
+  rw [List.drop_eq_nil_of_le (by omega)]; simp
+
+theorem openLoopSorted_eq {α : Type} (out : α → Bool) (i : Nat) (l : List α) :
+    openLoopSorted out i l = l.take i ++ (l.drop i).filter (fun a => !out a) := by
+  fun_induction openLoopSorted out i l with
+  | case1 i l h ho ih =>
+    rw [ih, take_eraseIdx_self l i h, drop_eraseIdx_self l i h]
+    rw [List.drop_eq_getElem_cons h, List.filter_cons]
+    simp only [ho, Bool.not_true, Bool.false_eq_true, if_false]
+  | case2 i l h ho ih =>
+    rw [ih, List.drop_eq_getElem_cons h, List.filter_cons]
+    simp only [ho, Bool.not_false, if_true]
+    rw [List.take_succ_eq_append_getElem h, List.append_assoc, List.singleton_append]
+  | case3 i l h =>
+    simp at h
+    simp [List.take_of_length_le h, List.drop_of_length_le h]
+
 end openLoop
 
 end RV.C15
